@@ -5,7 +5,7 @@
    spec_case : what the implementation did is what a finite map would do
                (reference association list), evictions never take the protected
                key, Len = number of entries, capacity respected. *)
-From Sdns Require Export Common.Base Gen.C16 C16.Model C16.Conc.
+From Sdns Require Export Common.Base Gen.C16 C16.Model C16.Conc C16.Limiter.
 Open Scope nat_scope.
 
 (* ---------------------------------------------------------------- cases *)
@@ -58,7 +58,11 @@ Inductive case :=
      sequential SetWithCap prefix, one program per thread, the grants with what was
      observed after each, what the readers returned *)
 | CaseSched (prefix : list (N * N * Z)) (progs : list (list call))
-            (steps : list gstep) (reads : list (nat * obs)) (complete : bool).
+            (steps : list gstep) (reads : list (nat * obs)) (complete : bool)
+  (* NewLimiterStore(maxSize, _): observed calls (Get with the time stamp it stored, the identity of the
+     limiter it returned and the key that vanished, if any; Cleanup with the bracket of its cutoff and
+     the keys it removed), each with Len() afterwards *)
+| CaseLim (maxSize : Z) (steps : list (lop * Z)).
 
 (* ------------------------------------------------------------- helpers *)
 Definition dig_p : N := 1099511628211%N.
@@ -309,6 +313,17 @@ Definition sched_check (rescan : bool) (prefix : list (N * N * Z)) (progs : list
   existsb (fun s => negb complete ||
                     (quiescent s && reads_eqb (flat_map (reads_of s) (seq 0 (length progs))) reads)) finals.
 
+(* ------------------------------------------------ check: limiter store *)
+Fixpoint lim_run (ms : Z) (st : lstore) (steps : list (lop * Z)) : bool :=
+  match steps with
+  | [] => true
+  | (o, len) :: rest =>
+      match lstep ms st o with
+      | Some st' => Z.eqb (llen st') len && lim_run ms st' rest
+      | None => false
+      end
+  end.
+
 Definition check_case (c : case) : bool :=
   match c with
   | CaseTab cap n0 g0 steps final nfinal =>
@@ -330,6 +345,7 @@ Definition check_case (c : case) : bool :=
   | CaseSched prefix progs steps reads complete =>
       (* with the spill loop the source text has (Conc.go_rescan) *)
       sched_check go_rescan prefix progs steps reads complete
+  | CaseLim ms steps => lim_run ms [] steps
   end.
 
 (* ------------------------------------------------------------- the spec *)
@@ -458,6 +474,30 @@ Fixpoint sched_spec_run (ocap : option Z) (started : list nat) (steps : list gst
 Definition sched_spec (prefix : list (N * N * Z)) (progs : list (list call)) (steps : list gstep) : bool :=
   sched_spec_run (sched_cap prefix progs) [] steps.
 
+(* The limiter store judged as a bounded map key -> limiter identity (no clock): a stored
+   key returns its limiter, a new key gets a limiter no stored key has, the evicted key
+   is a stored key other than the one asked for, Len = stored keys <= max(maxSize, 1). *)
+Fixpoint lim_spec_run (ms : Z) (m : ref) (steps : list (lop * Z)) : bool :=
+  match steps with
+  | [] => true
+  | (o, len) :: rest =>
+      match o with
+      | OGet k _ id v =>
+          let ok_v := match v with Some vk => negb (N.eqb vk k) && r_mem m vk | None => true end in
+          let m1 := match v with Some vk => r_del m vk | None => m end in
+          let m2 := match r_get m1 k with Some _ => m1 | None => (k, id) :: m1 end in
+          ok_v &&
+          match r_get m1 k with
+          | Some x => N.eqb x id
+          | None => negb (existsb (fun p => N.eqb (snd p) id) m1)
+          end &&
+          Z.eqb (r_len m2) len && (len <=? Z.max ms 1)%Z && lim_spec_run ms m2 rest
+      | OClean _ _ gone =>
+          let m1 := fold_left r_del gone m in
+          nodupb gone && forallb (r_mem m) gone && Z.eqb (r_len m1) len && lim_spec_run ms m1 rest
+      end
+  end.
+
 Definition spec_case (c : case) : bool :=
   match c with
   | CaseTab _ _ _ steps _ _ => tab_spec_run [] steps
@@ -465,4 +505,5 @@ Definition spec_case (c : case) : bool :=
   | CaseCache _ steps => seg_spec_run [] steps
   | CaseGo _ => true
   | CaseSched prefix progs steps _ _ => sched_spec prefix progs steps
+  | CaseLim ms steps => lim_spec_run ms [] steps
   end.
